@@ -5,6 +5,7 @@ import (
 	"go/constant"
 	"go/types"
 	"math/big"
+	"sort"
 	"strings"
 
 	"golang.org/x/tools/go/ssa"
@@ -936,6 +937,49 @@ func (env *Env) evalCall(n ECall) Val {
 		v := env.eval(n.Args[0])
 		t := e.P.resolveType(typeArgText(n.Args[1]), env.pkg, env.fnForTypes())
 		return term(fmt.Sprintf("(= (ityp %s) %d)", v.T, e.S.TypeID(t)), tBool)
+	case "isfunc":
+		// isfunc(f, "Name"): the function value f is one that THIS execution made from the function, method
+		// value or closure called Name (for a method value `x.M` written `M`; optionally a third argument: the
+		// receiver it is bound to). Decided over the closures the execution has created so far: a disjunction
+		// of identities with those of that name, so a value of unknown origin is never accepted.
+		v := env.eval(n.Args[0])
+		ft := e.asTerm(env.st, v)
+		want := strings.Trim(typeArgText(n.Args[1]), "\"")
+		var recv string
+		if len(n.Args) > 2 {
+			recv = e.asTerm(env.st, env.eval(n.Args[2]))
+		}
+		var ds []string
+		keys := make([]string, 0, len(e.closureRev))
+		for k := range e.closureRev {
+			keys = append(keys, k)
+		}
+		sort.Strings(keys)
+		for _, k := range keys {
+			cv := e.closureRev[k]
+			if cv.Fn == nil {
+				continue
+			}
+			name := strings.TrimSuffix(cv.Fn.Name(), "$bound")
+			if name != want {
+				continue
+			}
+			d := fmt.Sprintf("(= %s %s)", ft, k)
+			if recv != "" {
+				if len(cv.Binds) != 1 {
+					continue
+				}
+				d = fmt.Sprintf("(and %s (= %s %s))", d, e.asTerm(env.st, cv.Binds[0]), recv)
+			}
+			ds = append(ds, d)
+		}
+		if len(ds) == 0 {
+			return term("false", tBool)
+		}
+		if len(ds) == 1 {
+			return term(ds[0], tBool)
+		}
+		return term("(or "+strings.Join(ds, " ")+")", tBool)
 	case "fresh":
 		v := env.eval(n.Args[0])
 		ref := e.asTerm(env.st, v)
